@@ -21,6 +21,9 @@ import IsoDT.Driver.DurQ
 import IsoDT.Driver.SpecOps
 import IsoDT.Driver.RecMM
 import IsoDT.Driver.TruncProps
+import IsoDT.Driver.Strftime2
+import IsoDT.Driver.Cli2
+import IsoDT.Driver.DurTextQ
 
 open IsoDT IsoDT.Model
 open IsoDT.Spec (Date TZ TP)
@@ -333,6 +336,9 @@ def extDispatch (toks : List String) : Option String :=
   <|> IsoDT.Driver.SpecOps.dispatch toks
   <|> IsoDT.Driver.RecMM.dispatch toks
   <|> IsoDT.Driver.TruncProps.dispatch toks
+  <|> IsoDT.Driver.Strftime2.dispatch toks
+  <|> IsoDT.Driver.Cli2.dispatch toks
+  <|> IsoDT.Driver.DurTextQ.dispatch toks
   -- <|> IsoDT.Driver.Foo.dispatch toks
 
 def dispatch (toks : List String) : String :=
